@@ -288,7 +288,9 @@ func (fields List) Get(name string) Field {
 			i += n + x
 		}
 		if kind == JSON && isj {
-			if jname < fname {
+			// (the plain field called name, dot included, sorts after every
+			// JSON field between jname and name: stop at name, not at jname)
+			if name < fname {
 				break
 			}
 			if fname == jname {
